@@ -25,8 +25,8 @@ ASSUMPTIONS = [
     "floor(n*p): both the exact rational floor and the float product's floor are accepted when they differ by rounding",
 ]
 BUDGET = {
-    "quick": {"cases": 4000, "seconds": 40, "shards": 8},
-    "thorough": {"cases": 80000, "seconds": 420, "shards": 16},
+    "quick": {"cases": 16000, "seconds": 90, "shards": 8},
+    "thorough": {"cases": 500000, "seconds": 900, "shards": 16},
 }
 REQUIRED_OBS = ["seed_zero_cases", "split_checked", "split_with_index_checked", "merge_checked", "determinism_checked", "convert_checked", "format:txt", "format:csv",
                 "format:json", "subgraph_from_file_checked", "nonsequential_rejected", "p_extreme"]
